@@ -535,16 +535,16 @@ PROPS["C17"]["extra"] = [race_step(dict(
     quick=["ttstress 65536 4 3 2 20000 $SEED", "ttstress 1024 5 2 4 20000 $SEED", "resetrace 12 1"],
     thorough=["ttstress 65536 4 3 2 200000 $SEED", "ttstress 1024 6 4 4 200000 $SEED", "ttstress 64 8 4 2 200000 $SEED", "ttstress 4096 6 3 200 200000 $SEED", "resetrace 60 1", "resetrace 40 2"]))]
 PROPS["C16"]["extra"] = [race_step(dict(
-    quick=[],
+    quick=["noiserace 15 10"],
     thorough=["uci plain 0 ; gate 200 ;; > position startpos ;; > go depth 4 ;; wait-parked ;; slow 200 ;; > position startpos moves e2e4 ;; > go depth 2 ;; sleep 20 ;; release ;; wait-bestmove 20000 ;; quiet 1500 ;; sync",
               "uci morlock 0 ; slow 50 ;; > position startpos ;; > go infinite ;; sleep 200 ;; > stop ;; wait-bestmove 20000 ;; > position startpos moves e2e4 ;; > go depth 3 ;; wait-bestmove 20000 ;; > quit ;; wait-closed",
               "uci sargon 0 ; slow 50 ;; > position startpos moves e2e4 e7e5 ;; > go depth 2 ;; sleep 30 ;; > go depth 1 ;; wait-bestmove 30000 ;; close ;; wait-closed"]))]
 PROPS["C18"]["extra"] = [race_step(dict(
-    quick=["supersede sargon 40 2 e2e4 e7e5"],
+    quick=["supersede sargon 40 2 e2e4 e7e5", "noiserace 25 10"],
     thorough=["isolate sargon 150 1 rnbqkbnr/pppppppp/8/8/8/8/PPPPPPPP/RNBQKBNR w KQkq - 0 1 ; m:e2e4 m:e7e5 ; g1f3",
               "isolate turochamp 200 0 r3k2r/p1ppqpb1/bn2pnp1/3PN3/1p2P3/2N2Q1p/PPPBBPPP/R3K2R w KQkq - 0 1 ;  ; e1g1",
               "det sargon 2 rnbqkbnr/pppppppp/8/8/8/8/PPPPPPPP/RNBQKBNR w KQkq - 0 1 ; m:d2d4 m:d7d5",
-              "supersede sargon 300 2 e2e4 e7e5", "supersede turochamp 100 1 e2e4 e7e5", "supersede bernstein 100 2 d2d4 d7d5"]))]
+              "supersede sargon 300 2 e2e4 e7e5", "supersede turochamp 100 1 e2e4 e7e5", "supersede bernstein 100 2 d2d4 d7d5", "noiserace 200 10"]))]
 CUSTOM_REPLAY["C17"] = _replay_race
 CUSTOM_REPLAY["C16"] = _replay_race
 CUSTOM_REPLAY["C18"] = _replay_race
